@@ -197,6 +197,9 @@ class FakeTermios:
         self._chk(fd)
         k = self._tty.k
         k.seam("tty.tcdrain")
+        if self._tty.tcdrain_refused:
+            # some platforms (Termux) refuse it for good: "Permission denied"
+            raise real_termios.error(13, "Permission denied")
         k.seam_after("tty.tcdrain")
 
     def tcflush(self, fd, queue):
@@ -317,6 +320,7 @@ class FakeOS:
 
 SimTTY.bytes_read = 0
 SimTTY.short_write = None
+SimTTY.tcdrain_refused = False
 
 
 def make_select(tty):
